@@ -88,16 +88,22 @@ func TestC06Wait(t *testing.T) {
 		depthOf := depthOfP // eid -> depth
 		dead := &sync.Map{} // eid -> published with an already cancelled context
 		var slow atomic.Int32
-		pc := map[int]int{}
+		pc, cc := map[int]int{}, map[int]int{}
 		nH := 1 + rng.IntN(4)
 		for k := 0; k < nH; k++ {
 			tt := rng.IntN(nT)
 			r := &conc.Reg{T: tt, Class: pc[tt], Async: rng.IntN(5) != 0, Seq: rng.IntN(4) == 0, Filter: rng.IntN(5) == 0}
 			pc[tt]++
+			if rng.IntN(3) == 0 && cc[tt] < 6 {
+				// a context-aware handler: what it publishes, it publishes with the context it was given
+				r.Ctx, r.Class = true, cc[tt]
+				cc[tt]++
+				pc[tt]--
+			}
 			nest := rng.IntN(2) == 0
 			nestT := rng.IntN(nT)
 			sleepy := rng.IntN(3) == 0
-			r.Body = func(w *conc.World, r *conc.Reg, _ context.Context, eid uint64) {
+			r.Body = func(w *conc.World, r *conc.Reg, hctx context.Context, eid uint64) {
 				d := 0
 				if v, ok := depthOf.Load(eid); ok {
 					d = v.(int)
@@ -108,7 +114,7 @@ func TestC06Wait(t *testing.T) {
 				if nest && d < maxDepth && r.Async {
 					id := w.NextEID()
 					depthOf.Store(id, d+1)
-					w.PublishNested(-2, nestT, nil, id, r.ID, eid)
+					w.PublishNested(-2, nestT, hctx, id, r.ID, eid) // (hctx is nil for plain handlers: Publish)
 				}
 				w.Noise()
 				if panicky && r.Async && d == 0 && eid%3 == 1 {
